@@ -36,7 +36,7 @@ def _spec():
     big_a = b"".join(b"A-line %05d aaaaaaaaaaaaaaaaaaaaaaaaaaaaaaaaaaaaaaaaaaaaaaaaaa\n" % i for i in range(70))  # ~4.5 kB: two copy blocks
     big_b = b"".join(b"B-line %05d bbbbbbbbbbbbbbbbbbbbbbbbbbbbbbbbbbbbbbbbbbbbbbbbbb\n" % i for i in range(70))
     return {
-        "d": {"big_a.txt": big_a, "big_b.txt": big_b, "small.txt": b"small\n", "sub": {"x.txt": b"x\n"}, "h.html": worlds.HTML, "small.txt.abstract": b"about small\n",
+        "d": {"big_a.txt": big_a, "big_b.txt": big_b, "small.txt": b"small\n", "sub": {"x.txt": b"x\n"}, "h.html": worlds.HTML, "pic.gif": b"GIF89a", "data.bin": b"\0\1\2", "small.txt.abstract": b"about small\n",
               ".names": b"Path=./small.txt\nName=Small One\nNumb=1\n"},
         "m.mbox": worlds.MBOX,
         "z.zip": worlds.make_zip([("f.txt", b"zf\n"), ("sub/g.txt", b"zg\n")]),
@@ -63,12 +63,14 @@ def _traced():
     import pygopherd.handlers.UMN as U
     import pygopherd.protocols.http as HT
 
+    # lazy initialisers: every line of the first two invocations per client (a table that is
+    # filled step by step is observable half-built), nothing afterwards (read-only by then)
     return {
-        H.init_default_handlers.__code__: (None, lambda: H.handlers is None or H.rootpath is None),
-        B.VFS_Real.getrootpath.__code__: (None, lambda: B.rootpath is None),
-        G.GopherEntry.guesstype.__code__: (4, lambda: G.mapping is None),
-        G.GopherEntry.handleeaext.__code__: (6, lambda: G.eaexts is None),
-        U.UMNDirHandler.prep_entriesappend.__code__: (14, lambda: U.extstrip is None),
+        H.init_default_handlers.__code__: (None, None, 1),
+        B.VFS_Real.getrootpath.__code__: (None, None, 1),
+        G.GopherEntry.guesstype.__code__: (None, None, 1),
+        G.GopherEntry.handleeaext.__code__: (8, None, 1),
+        U.UMNDirHandler.prep_entriesappend.__code__: (14, None, 1),
         # (loadcache/savecache touch shared state only through the cache file, whose every
         #  stat/open/read/write/close is a point of the VFS seam already)
         B.VFS_Real.copyto.__code__: (None, None),
@@ -296,7 +298,12 @@ def run(ck):
         combos = list(itertools.combinations_with_replacement(range(n), 2))
     shards = []
     for cold in (True, False):
-        for ch in core.chunks(combos, core.NPROC):
+        cc = combos
+        if cold and ck.tier == "quick":
+            # a cold start matters through the lazily initialised tables only: one request per way of reaching them
+            cold_menu = (0, 1, 3, 5, 6)
+            cc = [c for c in combos if all(i in cold_menu for i in c)]
+        for ch in core.chunks(cc, core.NPROC):
             shards.append((cold, ch, bound))
     if ck.tier == "thorough":
         triples = [c for c in itertools.combinations_with_replacement(range(6), 3)]
